@@ -33,7 +33,14 @@ RULE = ('The C01 problem generator (pool of 1-6 clients with dyadic data, '
         'Non-trivial: some round has >=2 clients of different sizes with a size '
         'not divisible by batch_size, and the history has >=2 rounds.')
 ASSUMPTIONS = [
-    'rng-independent least-squares loss; batching seed is a fixed integer',
+    'rng-independent least-squares loss (the differential relations compare two '
+    'algorithms whose key derivations may legitimately differ); batching seed is '
+    'a fixed integer. The Mime one-step clause is additionally run with a loss '
+    'that uses its key (gradient shift g(key) * mean_batch(x)): there only the '
+    'consequence "the result does not depend on which local batch was drawn" is '
+    'asserted (two runs differing in local batch size and shuffling seed agree '
+    'to 2e-6 * scale), because the exact cancellation of the two mini-batch '
+    'gradients needs the same batch AND the same key',
     'two fedjax algorithms run side by side are compared with tolerance '
     '2e-6 * (1 + max |param|) (observed differences are exactly 0 for most '
     'relations); float64 references use the C01 tolerances',
@@ -178,6 +185,46 @@ def run_mime_one_step(case):
   return []
 
 
+def keyed_per_example_loss(params, batch, rng):
+  # + g(rng) * (w . x): the gradient wrt w shifts by g(rng) * mean_batch(x), a
+  # term that depends on BOTH the key and the batch the loss is evaluated on
+  g = jax.random.randint(rng, (), -4, 5).astype(jnp.float32) / 4.0
+  return c01.per_example_loss(params, batch, rng) + g * (batch['x'] @ params['w'])
+
+
+def run_mime_one_step_keyed(case):
+  """Mime(SGD, one local step) with a loss that uses its key.  The local step is
+  base_opt(g(w0; batch, key) - g(w0; batch, key) + full-batch gradient): the two
+  mini-batch terms are the same computation and cancel exactly, so the round's
+  result cannot depend on WHICH local batch was drawn.  Two runs that differ
+  only in the local batching (batch size, shuffling seed) must agree."""
+  d = case['d']
+  datasets = [c01.make_dataset(c, d) for c in case['pool']]
+  states, algs = [], []
+  for alt in (False, True):
+    hp = dict(case['hparams'])
+    if alt:
+      hp.update(case['alt_hparams'])
+    with fedjax.for_each_client_backend(c01.backend_of(case['backend'])):
+      alg = mime_lib.mime(keyed_per_example_loss, c01.fj_optimizer(case['client_opt']),
+                          c01.hparams_of(hp), grads_hparams(case),
+                          server_learning_rate=2.0 ** -case['server_lr_exp'])
+    algs.append(alg)
+    states.append(alg.init(c01.init_params(case)))
+  for r, rnd in enumerate(case['rounds']):
+    clients = c01.cohort(case, rnd, datasets)
+    got = []
+    for k in (0, 1):
+      states[k], _ = algs[k].apply(states[k], clients)
+      got.append(c01.to_np(states[k].params))
+    scale = 1.0 + max(float(np.max(np.abs(v))) for v in got[0].values())
+    require(c01.close(got[1], got[0], 2e-6 * scale),
+            'mime_one_step_depends_on_the_local_batch',
+            lambda: f'round {r}: local batching {case["hparams"]} vs {case["alt_hparams"]}: '
+                    f'differ by {c01.diff(got[1], got[0]):.3e}; {got[0]} vs {got[1]}')
+  return []
+
+
 # ----------------------------------------------------------------- strategies
 
 SGD_FAMILY = ['sgd', 'momentum', 'nesterov']
@@ -215,12 +262,18 @@ def case_strategy(draw, tier, relation):
   if relation == 'mimelite':
     case['client_opt'] = {'name': 'sgd', 'lr_exp': draw(st.integers(2, 6)), 'momentum': 2}
     case['server_opt'] = {'name': 'sgd', 'lr_exp': 0, 'momentum': 2}
-  if relation == 'mime_one_step':
+  if relation in ('mime_one_step', 'mime_one_step_keyed'):
     case['client_opt'] = {'name': 'sgd', 'lr_exp': draw(st.integers(1, 5)), 'momentum': 2}
     case['server_lr_exp'] = draw(st.integers(0, 3))
     case['hparams']['num_steps'] = 1
     case['hparams']['num_epochs'] = None
     case['rounds'] = [[[i, s] for i, s in rnd if sizes[i] > 0] for rnd in case['rounds']]
+  if relation == 'mime_one_step_keyed':
+    # the second run: another local batch size and another shuffling seed
+    b = case['hparams']['batch_size']
+    case['alt_hparams'] = {
+        'batch_size': draw(st.sampled_from([x for x in (1, 2, 3, 5) if x != b])),
+        'seed': draw(st.integers(0, 2 ** 16))}
   if relation == 'apfl':
     case['coefficient'] = draw(st.integers(0, 8))
   return case
@@ -254,4 +307,8 @@ CHECKS = [
        64, 1000, 'FedProx(mu>0) == FedAvg on loss + mu/2 |w - w_server|^2 (float64 reference)'),
     mk('mime_one_step', 'mime_one_step', run_mime_one_step,
        64, 1000, 'Mime(SGD, one local step) == one full-batch gradient step scaled by the server lr'),
+    mk('mime_one_step_keyed_loss', 'mime_one_step_keyed', run_mime_one_step_keyed,
+       48, 800, 'Mime(SGD, one local step) with a key-dependent loss: the result is '
+                'independent of the local batch size / shuffling seed (mini-batch '
+                'gradient and control variate cancel exactly)'),
 ]
